@@ -12,7 +12,12 @@ import json, os, shutil, subprocess, sys, tempfile, time
 VERIF = os.path.dirname(os.path.dirname(os.path.abspath(__file__)))
 
 
+GOBIN = os.environ.get("SEEDED_GO", "go")      # demonstrations that use testing/synctest need SEEDED_GO=go1.26
+
+
 def sh(cmd, cwd=None, env=None, timeout=1800):
+    if GOBIN != "go":
+        cmd = cmd.replace("go test ", "GOTOOLCHAIN=local GOFLAGS=-mod=mod %s test " % GOBIN).replace("go build ", "GOTOOLCHAIN=local %s build " % GOBIN)
     p = subprocess.run(cmd, shell=True, cwd=cwd, env=env, stdout=subprocess.PIPE, stderr=subprocess.STDOUT, text=True, timeout=timeout)
     return p.returncode, p.stdout
 
